@@ -1,6 +1,6 @@
 """Per-property configuration of the Kani/CBMC checks (harness overlays, bounds, tiers)."""
 
-COMMON_OVERLAYS = [("layer", "vkl.rs"), ("cel", "vkl.rs"), ("reader", "vkl.rs"), ("palette", "vkl.rs")]
+COMMON_OVERLAYS = [("layer", "vkl.rs"), ("cel", "vkl.rs"), ("reader", "vkl.rs"), ("palette", "vkl.rs"), ("tile", "vkl.rs"), ("tilemap", "vkl.rs"), ("tileset", "vkl.rs")]
 
 COMMON_ASSUMPTIONS = [
     "Kani 0.68 MIR->goto translation and CBMC 6.11 + CaDiCaL are trusted; rustc dev-profile semantics "
@@ -22,14 +22,14 @@ def harness_doc(pid, name):
 PROPS["C09"] = dict(
     prefix="c09_",
     overlays=[("layer", "vk_c09.rs")],
-    rotate=["c09_t_parents_n6", "c09_t_visible_n6"],
+    rotate=["c09_t_parents_n8", "c09_t_visible_n6"],
     bounds="quick: 4 layers; thorough: 8 layers (parents) / 6 layers (visibility); child levels and flag words are "
            "arbitrary u16 under the format's forest precondition (first level 0, each level <= predecessor+1)",
     outside="more than 8 layers; stack depth of the recursive ancestor walk for very deep nesting",
     docs={
         "c09_q_parents_n4": "levels:[u16;4] symbolic, forest assumed; LayersData::from_vec -> compute_parents; "
                             "asserts parent(i) = max{j<i: level j < level i}, None at level 0, parent < i",
-        "c09_t_parents_n6": "as n4 with 6 layers",
+        "c09_q_parents_n6": "as n4 with 6 layers",
         "c09_t_parents_n8": "as n4 with 8 layers (the property's exhaustive bound, decided symbolically)",
         "c09_q_visible_n4": "levels, flag words:[u16;4] symbolic; sprite constructed directly; symbolic layer index; "
                             "Layer::is_visible == own VISIBLE bit && spec-visibility of spec-parent; Layer::parent agrees",
@@ -59,12 +59,12 @@ PROPS["C03"] = dict(
 
 PROPS["C17"] = dict(
     prefix="c17_",
-    overlays=[("blend", "vk_ref.rs"), ("blend", "vk_c03.rs"), ("blend", "vk_c17.rs")],
+    overlays=[("blend", "vk_ref.rs"), ("blend", "vk_c03.rs"), ("blend", "vk_c17.rs"), ("file", "vk_c02.rs")],
     pregen=[("softlight_table.py", "src/blend/vk_softtab.rs")],
     extra_harnesses=dict(
         quick=["c03_q_wrap_soft_light", "c03_q_wrap_hsl_hue", "c03_q_wrap_hsl_saturation", "c03_q_wrap_hsl_color",
                "c03_q_wrap_hsl_luminosity", "c03_q_merge_full", "c03_q_leaf_mul_un8", "c03_q_leaf_blend8", "c03_q_leaf_div_un8",
-               "c03_t_normal_internal_checks"],
+               "c03_t_normal_internal_checks", "c02_q_raw_cel_2x2_2x1"],
         thorough=["c03_q_wrap_multiply", "c03_q_wrap_screen", "c03_q_wrap_overlay", "c03_q_wrap_darken", "c03_q_wrap_lighten",
                   "c03_q_wrap_color_dodge", "c03_q_wrap_color_burn", "c03_q_wrap_hard_light", "c03_q_wrap_difference",
                   "c03_q_wrap_exclusion", "c03_q_wrap_divide", "c03_q_wrap_addition", "c03_q_wrap_subtract",
@@ -97,7 +97,7 @@ PROPS["C02"] = dict(
 
 PROPS["C04"] = dict(
     prefix="c04_",
-    overlays=[("lib.rs", "vk_c04.rs")],
+    overlays=[("lib.rs", "vk_c04.rs"), ("parse", "vk_c04p.rs")],
     bounds="chunk payloads <= 58 bytes with every attribute byte symbolic (string-length bytes concrete 0/1), <= 5 layers "
            "with arbitrary u16 nesting levels, cel tables of <= 2 frames x 2 layers with symbolic link targets",
     outside="real zlib inflate (identity model of unzip), payloads longer than the skeletons, allocation failure (C12), "
@@ -108,6 +108,7 @@ PROPS["C04"] = dict(
 PROPS["C15"] = dict(
     prefix="c15_",
     overlays=[("lib.rs", "vk_c15.rs"), ("parse", "vk_c15p.rs")],
+    per_harness={r"c15_t_tileset_without_embedded_pixels": dict(mem_gb=12, timeout=1200)},
     bounds="each deciding field over its whole encodable range (u16 / u8 / both pixel-ratio bytes and the depth word with all "
            "other header bytes symbolic); one chunk per frame for the propagation lemmas",
     outside="positions of the feature other than the first chunk of the first frame (dispatch is per chunk and stateless "
@@ -145,4 +146,45 @@ PROPS["C11"] = dict(
            "2 packets (2 + 1 colours) at concrete skip pairs (0,3) (1,2) (2,1) (0,0) with symbolic components; all 6-bit values; "
            "2 indexed pixels against a 3-entry sparse palette; both chunk orders for precedence",
     outside="count byte 0 (= 256 entries), more than 2 packets / entries, symbolic palette indices (hash-map keys are concrete)",
+)
+
+
+PROPS["C06"] = dict(
+    prefix="c06_",
+    overlays=[("pixel", "vk_c06x.rs"), ("cel", "vk_c06.rs"), ("file", "vk_c02.rs"), ("file", "vk_c06f.rs")],
+    per_harness={
+        r"c06_._cel_image_.*": dict(mem_gb=12, recursion={r"file::AsepriteFile::write_cel": 2}, timeout=1500),
+    },
+    bounds="2 pixels per format with all byte values; indexed: sparse 2-entry palette {0,3} with symbolic RGBA, all transparent "
+           "indices, both background settings; cel chunk header over all attribute values (1x1 payload); cel image on a 1x1 canvas",
+    outside="real deflate streams (identity model of unzip; native replays use a stored-block zlib stream), larger images, "
+            "offsets other than (0,0) in the image harness (clipping is decided by C02's rasteriser unit)",
+)
+
+
+PROPS["C08"] = dict(
+    prefix="c08_",
+    overlays=[("file", "vk_c08.rs")],
+    bounds="geometry: canvas and tile size over all of u16 (tile size >= 1), cel offset over all tile-aligned i16 pairs, lookup "
+           "coordinates over all of u32 x u32 (stored map 1x1), stored 2x2 map with coordinates < 300; rasteriser: 2x2 canvas, "
+           "tiles 1x1 / 2x1, stored map 2x1, symbolic ids, offsets, opacities, mode; tileset images: 2 tiles of 2x1",
+    outside="larger maps and tiles, grayscale / indexed tilesets (pixel conversion is C06), what the blend functions compute (C03)",
+)
+
+
+PROPS["C05"] = dict(
+    prefix="c05_",
+    overlays=[("lib.rs", "vk_c05.rs"), ("file", "vk_c02.rs"), ("file", "vk_c06f.rs"), ("file", "vk_c08.rs"), ("layer", "vk_c09.rs")],
+    extra_harnesses=dict(
+        quick=["c08_q_tilemap_geometry_and_lookup", "c08_q_tilemap_lookup_2x2", "c08_q_tileset_images",
+               "c06_q_cel_image_linked", "c09_q_visible_n4"],
+        thorough=["c08_q_tilemap_raster_tile1x1", "c06_q_cel_image_raw", "c06_q_cel_image_absent", "c02_q_fold_l2_k12",
+                  "c02_q_raw_cel_2x2_2x1"]),
+    per_harness={
+        r"c0[26]_._(fold|cel_image)_.*": dict(mem_gb=12, recursion={r"file::AsepriteFile::write_cel": 2}, timeout=1500),
+    },
+    bounds="declared-vs-supplied sizes: 2x1 image cel / 2-tile tileset / 2x1 tilemap with 1 or 2 elements supplied, tile size 0 in "
+           "either dimension, 2 symbolic tile ids against a symbolic tile count; accessor half: the bounds of the re-run C02/C06/C08/C09 harnesses",
+    outside="fmt::Debug of the sprite (formatting is stubbed), stack depth of Layer::is_visible for deep nesting, tile sizes and "
+            "map sizes beyond the C08 bounds (e.g. the i32 products in the tilemap rasteriser for 65535-pixel tiles), real zlib streams",
 )
